@@ -276,14 +276,34 @@ fn eval(name: &str, a: &[Value]) -> Value {
         "one_liner_roundtrip" => {
             use scrut::parsers::parser::Parser;
             let config = crate::cfg::tcc_from(&a[0]);
-            let rendered = config.to_yaml_one_liner();
-            let doc = format!("```scrut {}\n$ true\n```\n", rendered);
+            let (rendered, doc) = if a.get(1).and_then(|v| v.as_str()) == Some("generator") {
+                // through the Markdown generator of `create` / `--convert`: it decides whether a `{...}` is written at all
+                use scrut::generators::generator::TestCaseGenerator;
+                let testcase = scrut::testcase::TestCase { title: "".into(), shell_expression: "true".into(), expectations: vec![], exit_code: None,
+                    line_number: 1, config: config.with_defaults_from(&scrut::config::TestCaseConfig::default_markdown()) };
+                let outcome = scrut::outcome::Outcome { location: None, output: ("", "", Some(0)).into(), testcase,
+                    format: scrut::parsers::parser::ParserType::Markdown, escaping: scrut::escaping::Escaper::Unicode, result: Ok(()) };
+                match scrut::generators::markdown::MarkdownTestCaseGenerator::default().generate_testcases(&[&outcome]) {
+                    Ok(d) => (d.lines().next().unwrap_or("").to_string(), d),
+                    Err(e) => return json!({"equal": false, "rendered": format!("generator error: {:#}", e)}),
+                }
+            } else {
+                let rendered = config.to_yaml_one_liner();
+                let doc = format!("```scrut {}\n$ true\n```\n", rendered);
+                (rendered, doc)
+            };
+            let generator_mode = a.get(1).and_then(|v| v.as_str()) == Some("generator");
             let maker = std::sync::Arc::new(scrut::expectation::ExpectationMaker::new(scrut::rules::registry::RuleRegistry::default()));
             let parser = scrut::parsers::markdown::MarkdownParser::new(maker, &["scrut"], Some(scrut::config::TestCaseConfig::empty()));
             match parser.parse(&doc) {
                 Ok((_d, tests)) if tests.len() == 1 => {
                     let back = &tests[0].config;
-                    json!({"equal": *back == config, "rendered": rendered, "parsed": crate::cfg::tcc_to(back)})
+                    // generator mode: compare what is in effect (the Markdown defaults fill the keys that were not written)
+                    let (x, y) = if generator_mode {
+                        let d = scrut::config::TestCaseConfig::default_markdown();
+                        (back.with_defaults_from(&d), config.with_defaults_from(&d))
+                    } else { (back.clone(), config.clone()) };
+                    json!({"equal": x == y, "rendered": rendered, "parsed": crate::cfg::tcc_to(back)})
                 }
                 Ok((_d, tests)) => json!({"equal": false, "rendered": rendered, "parsed": format!("{} tests", tests.len())}),
                 Err(e) => json!({"equal": false, "rendered": rendered, "parsed": format!("error: {:#}", e)}),
@@ -565,6 +585,22 @@ fn eval(name: &str, a: &[Value]) -> Value {
                 Ok(v) => json!({"Ok": v.iter().map(|(i, o, c)| json!([i, bytes_val(o), c])).collect::<Vec<_>>()}),
                 Err(e) => json!({"Err": e}),
             }
+        }
+        // json and yaml renderer on one outcome: [location|null, title, "passed"|"timeout"|"skipped"]
+        "render_structured" => {
+            use scrut::renderers::renderer::Renderer;
+            let testcase = scrut::testcase::TestCase { title: str_arg(&a[1]), shell_expression: "x".into(), expectations: vec![], exit_code: None,
+                line_number: 1, config: scrut::config::TestCaseConfig::empty() };
+            let result = match a[2].as_str().unwrap_or("passed") {
+                "timeout" => Err(scrut::testcase::TestCaseError::Timeout),
+                "skipped" => Err(scrut::testcase::TestCaseError::Skipped),
+                _ => Ok(()),
+            };
+            let outcome = scrut::outcome::Outcome { location: a[0].as_str().map(|s| s.to_string()), output: ("", "", Some(0)).into(), testcase,
+                format: scrut::parsers::parser::ParserType::Markdown, escaping: scrut::escaping::Escaper::Unicode, result };
+            let show = |r: anyhow::Result<String>| match r { Ok(s) => json!({"Ok": s}), Err(e) => json!({"Err": format!("{:#}", e)}) };
+            json!({"json": show(scrut::renderers::structured::JsonRenderer::default().render(&[&outcome])),
+                   "yaml": show(scrut::renderers::structured::YamlRenderer::default().render(&[&outcome]))})
         }
         // TestCase::render_output(bytes) under keep_crlf / strip_ansi_escaping (null | bool each)
         "render_output" => {
